@@ -200,9 +200,15 @@ def rule_u7(repo, col):
     if len(calls) != 1 or not all(isinstance(a, ast.Name) for a in calls[0].args[2:]):
         raise AnalysisError("unify_call_return: unify_value_dc(c, r, sv, tv) not found")
     sv, tv = calls[0].args[2].id, calls[0].args[3].id
-    comps = [st for st in walk_no_nested(f.node) if isinstance(st, ast.Assign) and isinstance(st.targets[0], ast.Name) and st.targets[0].id == sv and isinstance(st.value, ast.DictComp)
-             and len(st.value.generators) == 1 and norm(st.value.generators[0].iter) == "%s.items()" % sv and st.lineno > calls[0].lineno]
-    comps.sort(key=lambda st_: st_.lineno)
+    # the chain of rewriting passes: each is a dict comprehension over <previous stage>.items(); the stages may re-bind one name or carry a name each
+    allc = sorted([st for st in walk_no_nested(f.node) if isinstance(st, ast.Assign) and isinstance(st.targets[0], ast.Name) and isinstance(st.value, ast.DictComp)
+                   and len(st.value.generators) == 1 and st.lineno > calls[0].lineno], key=lambda st_: st_.lineno)
+    comps = []
+    cur = sv
+    for st in allc:
+        if norm(st.value.generators[0].iter) == "%s.items()" % cur:
+            comps.append(st)
+            cur = st.targets[0].id
     if not comps:
         raise AnalysisError("unify_call_return: rewriting passes over %s not found" % sv)
     deref_at = None
